@@ -3,6 +3,9 @@
 package collector
 
 import (
+	"math"
+
+	"github.com/blevesearch/bleve/v2/numeric"
 	rt "github.com/blevesearch/bleve/v2/internal/verifrt"
 	"github.com/blevesearch/bleve/v2/search"
 )
@@ -253,4 +256,73 @@ func VerifH_C06_SearchAfter() {
 	}
 	rt.Assert(hc.Total() == uint64(n), "Total still counts every match")
 	rt.Cover(len(res) >= 2, "two-after")
+}
+
+// VerifH_C06_DecodedSortAfter: paging by feeding a hit's DecodedSort back as SearchAfter, the way a
+// client does: numeric sort key (symbolic float64 field values, prefix coded as the index stores
+// them) then _id. Page 2 requested "after" the last hit of page 1 must be exactly the hits that
+// follow it in the full order (DecodeValue and encodeSearchAfter must be mutually inverse on every
+// double). strconv's float formatting/parsing is the contract model of the engine.
+func VerifH_C06_DecodedSortAfter() {
+	maxN := rt.Param("max_n", 3)
+	n := rt.Choice("n", maxN) + 1
+	desc := rt.Choice("desc", 2) == 1
+	size := rt.Choice("size", 2) + 1
+	vals := make([]float64, n)
+	dv := &verifDocValues{fields: make([][]string, n), terms: make([][][]byte, n)}
+	for i := 0; i < n; i++ {
+		vals[i] = rt.F64("val")
+		rt.Assume(rt.And(vals[i] == vals[i], rt.Or(vals[i] != 0, math.Float64bits(vals[i]) == 0)))
+		dv.fields[i] = []string{"f"}
+		dv.terms[i] = [][]byte{numeric.MustNewPrefixCodedInt64(numeric.Float64ToInt64(vals[i]), 0)}
+	}
+	scores := make([]float64, n)
+	mk := func() search.SortOrder {
+		return search.SortOrder{&search.SortField{Field: "f", Type: search.SortFieldAsNumber, Desc: desc}, &search.SortDocID{}}
+	}
+	before := func(j, i int) bool {
+		lt := vals[j] < vals[i]
+		gt := vals[j] > vals[i]
+		if desc {
+			lt, gt = gt, lt
+		}
+		return rt.Or(lt, rt.And(!lt, !gt, j < i))
+	}
+	rank := func(i int) int {
+		r := 0
+		for j := 0; j < n; j++ {
+			if j != i {
+				r += rt.IteInt(before(j, i), 1, 0)
+			}
+		}
+		return r
+	}
+	hc1 := NewTopNCollector(size, 0, mk())
+	verifCollect(hc1, n, scores, dv)
+	p1 := hc1.Results()
+	if len(p1) == 0 {
+		return
+	}
+	last := p1[len(p1)-1]
+	rt.Assert(len(last.DecodedSort) == 2, "a hit carries one decoded sort value per sort key")
+	after := append([]string{}, last.DecodedSort...)
+	hc2 := NewTopNCollectorAfter(size, mk(), after)
+	verifCollect(hc2, n, scores, dv)
+	p2 := hc2.Results()
+	want := n - len(p1)
+	if want > size {
+		want = size
+	}
+	rt.Assert(len(p2) == want, "the page after a hit holds the hits that follow it (none lost, none repeated)")
+	for p, dm := range p2 {
+		h := verifHitIndex(dm)
+		rt.Assert(rt.And(h >= 0, h < n), "hit is one of the matches")
+		if h < 0 || h >= n {
+			return
+		}
+		rt.Assert(rank(h) == len(p1)+p, "hit p of the page after hit j has rank j+1+p in the full order")
+	}
+	if n >= 3 {
+		rt.Cover(rt.And(len(p2) >= 1, vals[0] != vals[1]), "second-page-nonempty")
+	}
 }
